@@ -166,10 +166,41 @@ def run_quic(b, seed, params=None, opts=(), flow=None, trace=False, extra_dgrams
     _l.VARIATION.clear()
     _l.VARIATION.update((params or {}).get("l2") or {})
     try:
-        cap = udp_capture([(fl, g.d, g.payload, g) for g in c.dgrams], cap=Capture(ts0=1_700_000_000_000_000 + seed % 999_983, step=1009))
+        mig = (params or {}).get("migrate_at")      # NAT rebinding: from the k-th datagram on the client is seen under another port (same CIDs)
+        fl2 = fl
+        if mig is not None and len(c.cid["c"]) > 0 and len(c.cid["s"]) > 0:      # (with a zero-length CID on either side the datagrams towards it carry nothing a passive observer could match after the rebinding)
+            from wire.l2l4 import Endpoint, Flow
+            fl2 = Flow(Endpoint(fl.client.mac, fl.client.ip, fl.client.port + 7), fl.server)
+        cap = udp_capture([((fl2 if mig is not None and i >= mig and g.packets and all(m["level"] == "a" for m in g.packets) else fl), g.d, g.payload, g)
+                           for i, g in enumerate(c.dgrams)], cap=Capture(ts0=1_700_000_000_000_000 + seed % 999_983, step=1009))
     finally:
         _l.VARIATION.clear()
-    res = runner.run_inproc(pcapng_bytes(cap.pkts), "\n".join(c.keylog) + "\n", opts=list(opts), trace=trace)
+    if (params or {}).get("ts_equal"):      # a coarse capture clock: a datagram may carry exactly the time of the previous one when that one travelled
+        rq = random.Random(seed + 41)       # in the OTHER direction (same-direction datagrams with equal times may be merged: C02's caveat)
+        chained = False
+        for i in range(1, len(cap.pkts)):       # (never three in a row: the third would share its time with a datagram of its own direction)
+            if not chained and c.dgrams[i].d != c.dgrams[i - 1].d and rq.random() < 0.5:
+                cap.pkts[i] = (cap.pkts[i - 1][0], cap.pkts[i][1])
+                chained = True
+            else:
+                chained = False
+    pk = list(cap.pkts)
+    if (params or {}).get("own_noise"):
+        # datagrams on the connection's own 4-tuple that belong to no packet-number space: Version Negotiation (before and after the
+        # handshake), a long header of an unknown version, a too short datagram.  None carries anything exportable without -a.
+        import struct
+        from wire.l2l4 import udp_frame as _uf
+        rn = random.Random(seed + 77)
+        vn = lambda: bytes([0x80 | rn.getrandbits(7)]) + b"\x00\x00\x00\x00" + bytes([len(c.cid["c"])]) + c.cid["c"] + bytes([len(c.odcid)]) + c.odcid + struct.pack("!II", 0x6B3343CF, 1)
+        other = lambda: bytes([0xC0 | rn.getrandbits(4)]) + struct.pack("!I", 0x6B3343CF) + bytes([8]) + bytes(rn.getrandbits(8) for _ in range(8)) + b"\x00\x00\x40\x10" + bytes(16)
+        # (not between a Retry and the client's next Initial: the session takes its new Initial keys from the first long-header datagram it
+        #  sees after the Retry -- a stray datagram there costs the connection; observed, outside the listed properties)
+        retry_at = [i for i, g in enumerate(c.dgrams) if g.note == "RETRY"]
+        ok_pos = [k for k in range(1, len(pk) + 1) if not (retry_at and k == retry_at[0] + 1)]
+        ins = sorted(((rn.choice(ok_pos), d, mk) for d, mk in (("s", vn), ("s", vn), ("c", other), ("c", lambda: bytes([0x40, 1, 2])))), key=lambda x: -x[0])
+        for k, d, mk in ins:
+            pk.insert(k, (cap.pkts[k - 1][0] + 3, _uf(fl, d, mk())))
+    res = runner.run_inproc(pcapng_bytes(pk), "\n".join(c.keylog) + "\n", opts=list(opts), trace=trace)
     return c, payload, fl, cap, res
 
 
